@@ -13,8 +13,8 @@ STEMS = ['Red', 'GreenLeaf', 'HTTPServer', 'Foo2Bar', 'XMLHttpRequest', 'A1', 's
          'IOError', 'Utf8', 'B2B', 'lower', 'UPPER', 'Mixed_Case_9', 'Silk', 'Iris', 'Disk', 'Ski', 'Sketch', 'Kiss',
          'red', 'rr_sched', 'rRaw']
 
-KINDS = [('unit', []), ('tuple', ['u8']), ('tuple', ['String', 'i32']), ('tuple', ['bool', 'u8', 'OptU8']),
-         ('named', ['i32']), ('named', ['u8', 'String']), ('named', ['String', 'bool', 'u8']), ('tuple', []), ('named', [])]
+KINDS = [('unit', []), ('tuple', ['u8']), ('tuple', ['String', 'i32']), ('tuple', ['bool', 'Host', 'OptU8']),
+         ('named', ['i32']), ('named', ['u8', 'String']), ('named', ['String', 'bool', 'Host']), ('tuple', []), ('named', [])]
 NAMINGS = ['none', 'ts', 'ser1', 'ser2', 'ser3', 'ser_ts', 'ser2_ts']
 FIELD_NAMES = ['alpha', 'beta', 'gamma']
 
